@@ -55,6 +55,11 @@ func c12(e *Env) {
 			inList[l] = true
 		}
 	}
+	// the list is a set: the order in which the levels are configured means nothing
+	for i := len(unsupported) - 1; i > 0; i-- {
+		j := c.Choose("unsuporder", i+1)
+		unsupported[i], unsupported[j] = unsupported[j], unsupported[i]
+	}
 	override := world.AllConsistencies[c.Choose("override", len(world.AllConsistencies))]
 	pw := protoBoot(e, func(cfg *world.Config) {
 		cfg.TweakProxy = func(pc *proxy.Config) { proxy.SimSetWriteConsistencyOverride(pc, unsupported, override) }
